@@ -214,9 +214,9 @@ theorem parseFunc_rec (le : Bool) (version : Nat) (bs : List Nat) :
     · exact PR.All.ok trivial
 
 /-- the record stream of a gcno never holds a crash marker -/
-theorem parseRecs_notCrash (le : Bool) (version : Nat) (fuel : Nat) (hf : Bool) (bs : List Nat) :
-    ∀ r ∈ parseRecs le version fuel hf bs, r.notCrash := by
-  fun_induction parseRecs le version fuel hf bs <;> simp_all
+theorem parseRecs_notCrash (le : Bool) (version blen : Nat) (fuel total : Nat) (hf : Bool)
+    (bs : List Nat) : ∀ r ∈ parseRecs le version blen fuel total hf bs, r.notCrash := by
+  fun_induction parseRecs le version blen fuel total hf bs <;> simp_all
   · exact parseFunc_rec _ _ _ _ _ ‹_›
   · exact absurd ‹parseFunc _ _ _ = PR.crash _› (parseFunc_noCrash _ _ _ _)
   · have h := ‹parseItems le _ _ [] = _›
